@@ -1,6 +1,7 @@
 pub mod c01;
 pub mod c02;
 pub mod c05;
+pub mod c06;
 pub mod c08;
 pub mod c09;
 pub mod c10;
@@ -16,3 +17,23 @@ pub mod part;
 pub fn avoid_direct_ts_restart(_cfg: &crate::fscn::FileCfg) -> bool {
     false
 }
+
+/// Listed finding KF-C07-1: the cleanup orders files lexicographically by name. With a
+/// TimestampsCustomFormat whose rendering does not sort chronologically (day or month first)
+/// and a cleanup strategy, it keeps/removes the wrong files. Failures of such cases get this
+/// signature (and nothing else does).
+pub fn unsortable_format_with_cleanup(cfg: &crate::fscn::FileCfg) -> bool {
+    match &cfg.rot {
+        Some(r) if r.cln != crate::fscn::Cln::Never => match &r.nam {
+            crate::fscn::Nam::Custom { fmt, .. } => {
+                let y = fmt.find("%Y");
+                let d = fmt.find("%d");
+                let m = fmt.find("%m");
+                !(y < m && m < d)
+            }
+            _ => false,
+        },
+        _ => false,
+    }
+}
+pub const SIG_UNSORTABLE: &str = "cleanup-with-unsortable-timestamp-format";
